@@ -62,6 +62,12 @@ def programs(t):
         'reaps-a-sibling': [ev('BSC_getgid', 1, tid=t), ev('TRACE_DATA_THREAD_TERMINATE', 0, (t % 3 + 1, 0, 0, 0), t), ev('BSC_getgid', 2, (0, 1, 0, 0), t)],
         # lone records (NONE / ALL) of calls that other threads make as START..END pairs
         'lone-records-of-calls': [ev('BSC_getppid', 0, (0, 0, 0, 0), t), ev('BSC_getpid', 3, (0, 0, 0, 0), t), ev('BSC_getuid', 0, (0, 0, 0, 0), t)],
+        # inside execve: announces a sibling thread as its exec copy (word 2 of the new-thread record set), then goes on; and the END of an
+        # execve whose START this thread never logged (the copy returns from the call the old thread started)
+        'exec-copy-of-sibling': [ev('BSC_execve', 1, (1, 2, 3, 4), t), ev('TRACE_DATA_NEWTHREAD', 0, (t % 3 + 1, pid + 6, 1, 9), t),
+                                 ev('VFS_LOOKUP', 3, tid=t, data=B.le(t, 8) + S(b'/old%d' % t)[:24]), ev('BSC_execve', 2, (0, 0, 0, 0), t)],
+        'open-then-orphan-execve-end': [ev('BSC_open', 1, (1, 0, 0, 0), t), ev('VFS_LOOKUP', 3, tid=t, data=B.le(t, 8) + S(b'/q%d' % t)[:24]),
+                                        ev('BSC_open', 2, (0, 3, 0, 0), t), ev('BSC_execve', 2, (0, 0, 0, 0), t)],
         'exec+rename': [ev('TRACE_DATA_EXEC', 0, (pid + 2, 0, 0, 0), t), ev('BSC_getpid', 1, tid=t), ev('TRACE_STRING_EXEC', 0, tid=t, data=S(nm + b'y')),
                         ev('BSC_getpid', 2, (0, pid, 0, 0), t)],
     }
@@ -182,7 +188,7 @@ class C05(Check):
             'string + dlopen, 3-record lookup inside stat64, page fault with nested record, launch with nested map, EXEC pair with '
             'an unrelated syscall in between, NEWTHREAD pair announcing a sibling participant\'s thread id, two ENDs whose STARTs fell before the capture, a read whose records are byte-identical on every thread, a call interrupted by the lost-events marker of the kernel, a NEWTHREAD pair whose thread id is numerically the process id a sibling names), each parameterised by its own tid/pid/names, EVERY interleaving (merge preserving '
             'each program\'s order) is fed to a fresh TracesParser - once built with empty tables, once with a thread map already populated at construction, and once through feed_generator with every record carrying the same timestamp; every pair also as a version-2 dump FILE through PyKdebugParser.traces with per-thread clocks 2^40 ticks apart (the tables of the facade object are the ones compared; the same file is also listed once per participating thread with the thread filter set). Plus one schedule family with a gap of 600..40 000 foreign records inside an open call, through feed_generator. quick: all pairs (full programs) + all triples of programs '
-            'truncated to 2 events; thorough: all pairs and all triples of full programs. Oracle: per-thread list of (trace type, '
+            'truncated to 2 events; thorough: all pairs (full programs) and all triples of programs truncated to 4 events (the full triples would be 146 million schedules). Oracle: per-thread list of (trace type, '
             'text, window) equals the solo run of that thread\'s program; learned tables equal the union of the solo runs. '
             'states = distinct program combinations; transitions = feeds; non-trivial = schedule with at least one context switch '
             'inside a program (not a concatenation).')
@@ -192,12 +198,28 @@ class C05(Check):
 
     def bounds(self):
         return {'programs': len(NAMES), 'pairs': len(NAMES) ** 2, 'triples': len(NAMES) ** 3,
-                'triple_truncation': 2 if self.tier == 'quick' else None}
+                'triple_truncation': 2 if self.tier == 'quick' else 4}
 
     def shards(self):
         out = [('pairs', ch, None) for ch in chunked(list(itertools.product(NAMES, repeat=2)), 32)]
-        trunc = 2 if self.tier == 'quick' else None
-        out += [('triples', ch, trunc) for ch in chunked(list(itertools.product(NAMES, repeat=3)), 128 if trunc else 330)]
+        # triples: every program cut to its first 2 (quick) / 4 (thorough) records; shards of about equal numbers of schedules
+        trunc = 2 if self.tier == 'quick' else 4
+        if self.tier == 'quick':
+            out += [('triples', ch, trunc) for ch in chunked(list(itertools.product(NAMES, repeat=3)), 128)]
+        else:
+            import math
+            L = {n: min(len(programs(1)[n]), trunc) for n in NAMES}
+            cur, weight = [], 0
+            for combo in itertools.product(NAMES, repeat=3):
+                ls = [L[n] for n in combo]
+                w = math.factorial(sum(ls)) // math.prod(math.factorial(x) for x in ls)
+                cur.append(combo)
+                weight += w
+                if weight >= 120000:
+                    out.append(('triples', cur, trunc))
+                    cur, weight = [], 0
+            if cur:
+                out.append(('triples', cur, trunc))
         out.append(('long-gap', None, None))
         return out
 
@@ -239,10 +261,10 @@ class C05(Check):
             return self.run_long_gap(acc)
         _, combos, trunc = desc
         for combo in combos:
-            if 'reaps-a-sibling' in combo and any(x in combo for x in ('newthread-of-sibling', 'threadname+terminate', 'thread-data-about-a-siblings-child')):
+            if 'reaps-a-sibling' in combo and any(x in combo for x in ('newthread-of-sibling', 'exec-copy-of-sibling', 'threadname+terminate', 'thread-data-about-a-siblings-child')):
                 # same caveat: the terminate record of a sibling renders the pid / name other threads may have declared for it
                 continue
-            if 'newthread-of-sibling' in combo and 'threadname+terminate' in combo:
+            if ('newthread-of-sibling' in combo or 'exec-copy-of-sibling' in combo) and 'threadname+terminate' in combo:
                 # the statement's caveat: thread-terminate renders the pid from the table another thread's NEWTHREAD record
                 # writes (by design); these two programs are not combined
                 continue
